@@ -3,6 +3,7 @@
 # a private git worktree of /repo plus a private copy of /verif whose harness and tools
 # point at that worktree, so that seeded / systematic mutants can be evaluated in parallel
 # without touching /repo.   usage: lane.sh <dir>        (e.g. /tmp/lane_1)
+#                                  lane.sh --refresh <dir>   (re-copy /verif into an existing lane)
 #                                  lane.sh --remove <dir>
 set -e
 if [ "$1" = "--remove" ]; then
@@ -11,10 +12,12 @@ if [ "$1" = "--remove" ]; then
   rm -rf "$D"
   exit 0
 fi
+REFRESH=0
+if [ "$1" = "--refresh" ]; then REFRESH=1; shift; fi
 D=$1
 ROOT="$(cd "$(dirname "$0")/.." && pwd)"
 mkdir -p "$D"
-git -C /repo worktree add --detach "$D/repo" HEAD -q
+if [ $REFRESH = 0 ]; then git -C /repo worktree add --detach "$D/repo" HEAD -q; else git -C "$D/repo" checkout -q -- .; fi
 mkdir -p "$D/verif"
 rsync -a --exclude .git --exclude replays --exclude seeded --exclude spikes --exclude '.work/prog*' "$ROOT/" "$D/verif/"
 # the scratch copy must read the scratch worktree
